@@ -294,6 +294,10 @@ def c09(tier):
         a = 0x4b6800 + h
         opts = OPTSETS[h % 4]
         g = [reset(opts), run1(df11(5, a)), run1(long_(20, enc_alt13(33000), mb17(1, 1, 1, 1), a))]
+        if h % 2:
+            # the aircraft was on the ground a moment ago: surface position reports (with their own movement / track) came first
+            ys_, xs_ = cpr_encode(50.03, 8.57, 0)
+            g += [run1(df17(5, a, me_surface(rng.randint(5, 8), rng.randint(1, 124), 1, rng.getrandbits(7), 0, ys_, xs_))) for _ in range(2)]
         for _ in range(4):
             gs = rng.randint(60, 250)
             g.append(run1(long_(rng.choice([20, 21]), enc_alt13(33000), mb50(rng.randint(-200, 200) or 1, rng.randrange(1, 2048), gs, rng.randint(-300, 300) or 1, max(1, min(250, gs + rng.randint(-40, 40)))), a)))
@@ -1005,6 +1009,10 @@ def c10(tier):
         lambda a: [df11(4, a)],
         lambda a: [df11(5, a)],
         lambda a: [df17(5, a, me_opstatus(2))],
+        lambda a: [df11(7, a)],
+        lambda a: [df11(6, a)],
+        lambda a: [df11(5, a), df11(7, a)],
+        lambda a: [df17(7, a, me_opstatus(2))],
         lambda a: [df11(5, a), df11(0, a)],
         # DF18 comes from equipment that is not a transponder: its CF field (bits 6-8) opens or closes nothing
         lambda a: [df11(0, a), df17(6, a, me_ident(4, 1, callsign_codes('ADSR')), df=18)],
@@ -1682,7 +1690,9 @@ def c16(tier):
         for a in acs:
             pool += nine_frames(a, rng)
         pool += nine_frames(0, rng)
-        g = [reset(opts + (['-U'] if len(fs) % 2 else []))]
+        # (-M, the message log, looks at every frame before the filter does: it must not act as a filter itself)
+        mopt = [[], ['-M', '17'], ['-M', '4', '-M', '21'], ['-M', '99']][len(groups) % 4]
+        g = [reset(opts + mopt + (['-U'] if len(fs) % 2 else []))]
         for _ in range(40 if tier == 'quick' else 200):
             g.append(run1(dialect(rng, rng.choice(pool))))
         groups.append(g)
@@ -1733,7 +1743,7 @@ def c16(tier):
     cbr = vlib.build_cli('release')
     for k in range(6 if tier == 'quick' else 60):
         fs = [[17], [4, 5], [11, 17, 20], [21], [5, 17, 0, 16], [20, 21, 49]][k % 6]
-        opts = ['-c'] + [x for d in fs for x in ('-f', str(d))] + (['-U'] if k % 2 else [])
+        opts = ['-c'] + [x for d in fs for x in ('-f', str(d))] + (['-U'] if k % 2 else []) + [[], ['-M', '17'], ['-M', '5', '-M', '20']][k % 3]
         pool = []
         for a in [0x4d3000 + rng.getrandbits(8) for _ in range(3)]:
             pool += nine_frames(a, rng)
@@ -2077,6 +2087,7 @@ def c18(tier):
     if tier == 'quick':
         seqs = [('refuse',), ('close',), ('frames', 'partial'), ('junk', 'refuse'), ('partial', 'frames'), ('frames', 'close', 'junk'),
                 ('refuse', 'refuse'), ('partial', 'partial', 'junk'), ('partialfin',), ('frames', 'partialfin', 'refuse'), ('partialfin', 'partialfin'),
+                ('close', 'close', 'partialfin'),       # (the three kinds of partial line rotate with the connection number)
                 ('long', 'refuse'), ('long', 'close')]      # a connection that outlives delete_after (-d 8), then an outage
     else:
         seqs = [s for n in (1, 2, 3) for s in itertools.product(tcp.FAULTS, repeat=n)]
@@ -2095,7 +2106,7 @@ def c18(tier):
                 'script element and the healthy one, gap after n refusals within [5n-0.5, 5n+4] s, prompt reconnect (< 4.5 s) after close/reset, '
                 'process alive, last refresh lists exactly the aircraft whose complete frames were delivered on any connection (partial lines and junk '
                 'contribute nothing and break nothing). Non-trivial = sequence with at least one fault; distinct by fault sequence' %
-                ('13 fault sequences of length 1..3 (two with a connection that outlives delete_after)' if tier == 'quick' else 'all 258 fault sequences of length <= 3 over 6 fault kinds and 5 with a connection that outlives delete_after'))
+                ('14 fault sequences of length 1..3 (two with a connection that outlives delete_after)' if tier == 'quick' else 'all 258 fault sequences of length <= 3 over 6 fault kinds and 5 with a connection that outlives delete_after'))
     vlib.nt_floor(rep, 5)
     return rep
 
@@ -2470,10 +2481,16 @@ def c19(tier):
             groups.append([{'c': 'reset', 'opts': ['-i', 'Q', '-d', '1'] + base, 'slot': 0},
                            {'c': 'reset', 'opts': (['-i', 'Q'] if name != 'i' else []) + ['-d', '1'] + base + extra, 'slot': 1},
                            run1(old, slot=0), run1(old, slot=1), tick(2500), runn(lines, slot=0, tag=tag), runn(lines, slot=1, tag=tag)])
-        # -O affects the distance only
-        for obs in ('90,0', '10.5, -20.25', 'garbage'):
+        # -O affects the distance only (observers far from the traffic, on top of it, and one that does not parse)
+        for obs in ('90,0', '10.5, -20.25', 'garbage', 'near'):
             lines = valid_value_frames(0x4b2000 + rep_i, rng)
-            rng.shuffle(lines)
+            if obs == 'near':
+                y0_, x0_ = cpr_encode(47.25, 8.75, 0)
+                y1_, x1_ = cpr_encode(47.2504, 8.7506, 1)
+                lines = [df17(5, 0x4b2000 + rep_i, me_airpos(11, 0, enc_alt12(9000), 0, y0_, x0_)), df17(5, 0x4b2000 + rep_i, me_airpos(11, 0, enc_alt12(9025), 1, y1_, x1_))] * 2 + lines[:6]
+                obs = '47.25, 8.75'
+            else:
+                rng.shuffle(lines)
             g = [reset(['-U'] if rep_i % 2 else [], slot=0, obs='-45, 170'), reset(['-U'] if rep_i % 2 else [], slot=1, obs=obs)]
             tag = {'pair': 'c19o', 'opt': 'O'}
             for l in lines:
@@ -2502,7 +2519,15 @@ def c19(tier):
         ys, xs = cpr_encode(48.35, 11.78, 0)
         pool += [df17(5, a, me_surface(rng.randint(5, 8), rng.getrandbits(7), 1, rng.getrandbits(7), k % 2, ys, xs)) for k in range(4)]
         g = [reset([], slot=0), reset(['-U'], slot=1)]
+        # even h: any movement / track field, the altitude column compared; odd h: valid movement and track, all nine parameters
         tag = {'pair': 'c19ua', 'opt': 'U.alt'}
+        if h % 2:
+            pool = valid_value_frames(a, rng)
+            la, lo = rng.uniform(-60, 60), rng.uniform(-170, 170)
+            for k in range(6):
+                ys, xs = cpr_encode(la + k * 0.0003, lo + k * 0.0003, k % 2)
+                pool.append(df17(5, a, me_surface(rng.randint(5, 8), rng.randint(1, 124), 1, rng.getrandbits(7), k % 2, ys, xs)))
+            tag = {'pair': 'c19u', 'opt': 'U.surface'}
         for _ in range(50):
             l = rng.choice(pool)
             g += [run1(l, slot=0, tag=tag), run1(l, slot=1, tag=tag)]
